@@ -85,6 +85,9 @@ func (h *lifeHead) HandleActive(ctx netty.ActiveContext) {
 		h.c.Emit("closecall:in:e1")
 		ctx.Channel().Close(errE1)
 		h.c.Emit("closeret:in")
+		// the Close call has returned: a write issued now must fail, whatever state the activation is in
+		_, werr := ctx.Channel().Write1([]byte{7})
+		h.c.Emit("wafter:%s", errClass(werr))
 	}
 	ctx.HandleActive()
 	h.c.Emit("active:e")
